@@ -130,7 +130,7 @@ PROPS["C16"] = {
     "engines": [
         {"bin": "hv", "args": ["c16"], "needs": ["server"]},
     ],
-    "min": {"quick": {"requests_served_after_a_failed_read": 4, "exhaustive_sequences": 3_900_000, "concurrent_histories": 200, "concurrent_hits_checked": 1000, "handler_requests": 100, "real_sleeps": 2, "multi_host_answers_own_file": 150, "second_directory_route_answers_own_file": 150},
+    "min": {"quick": {"requests_served_after_a_failed_read": 4, "exhaustive_sequences": 3_900_000, "concurrent_histories": 200, "concurrent_hits_checked": 1000, "handler_requests": 100, "real_sleeps": 2, "multi_host_answers_own_file": 150, "second_directory_route_answers_own_file": 150, "frequent_hit_requests_after_the_time_limit": 4},
             "thorough": {"requests_served_after_a_failed_read": 4, "exhaustive_sequences": 90_000_000}},
     "assumptions": [],
     "level_text": "Every operation sequence of length 4 (5 thorough; 6 thorough for the tightest configuration) over 3 keys x 2 hosts x 3 sizes is executed on the real Cache for 12 limit configurations with a shadow-map monitor probing all keys after every operation; long random sequences, concurrent histories through the RwLock (per-key interval check) and the two real handlers over changing files complete the picture.",
